@@ -215,6 +215,81 @@ def _parse_view(c, raw_start, raw_dur):
         }
 
 
+def unit_inputs():
+    """whole simulations of one physical system written in different timestep
+    units; the workflow file's header (generator metadata) varies too"""
+    out = []
+    for unit in (1, 30, "minutes", 120):
+        for header in ("absent", True, "false"):
+            for wf in (0, 1):
+                out.append({"unit": unit, "header": header, "wf": wf})
+    return out
+
+
+def run_unit_sim(x, wd):
+    """task runtimes and the observation's data volume, measured in seconds,
+    of a real simulation: machine 2 flop/s, 4 data units/s; compute demands are
+    multiples of 240 flop (a whole number of steps in every unit used)"""
+    import simpy
+    from topsim.core.simulation import Simulation
+    from topsim.user.telescope import Telescope
+    from topsim.user.plan.batch_planning import BatchPlanning
+    from topsim.user.schedule.queue_allocation import QueueProcessing
+    u = {"minutes": 60}.get(x["unit"], x["unit"])
+    comps = [[240, 480, 720], [960, 240, 240, 480]][x["wf"]]
+    datas = [[0, 480, 0], [0, 0, 1920, 0]][x["wf"]]
+    nodes = []
+    for k, c in enumerate(comps):
+        d = {"id": k, "comp": c}
+        if datas[k]:
+            d["task_data"] = datas[k]
+        nodes.append(d)
+    edges = [{"source": k, "target": k + 1, "transfer_data": 0} for k in range(len(comps) - 1)]
+    sub = os.path.join(wd, "unit_%s_%s_%d" % (x["unit"], x["header"], x["wf"]))
+    os.makedirs(sub, exist_ok=True)
+    hdr = {} if x["header"] == "absent" else {"time": x["header"]}
+    with open(os.path.join(sub, "wf.json"), "w") as f:
+        json.dump({"header": hdr, "graph": {"directed": True, "multigraph": False, "graph": {}, "nodes": nodes, "edges": edges}}, f)
+    conf = {
+        "instrument": {"telescope": {"total_arrays": 4, "max_ingest_resources": 1,
+                                     "pipelines": {"o": {"workflow": "wf.json", "ingest_demand": 1}},
+                                     "observations": [{"name": "o", "start": 0, "duration": 240,
+                                                       "instrument_demand": 2, "data_product_rate": 3}]}},
+        "cluster": {"header": {}, "system": {"resources": {"m0": {"flops": 2, "compute_bandwidth": 4},
+                                                           "m1": {"flops": 2, "compute_bandwidth": 4}},
+                                             "system_bandwidth": 4}},
+        "buffer": {"hot": {"capacity": 5000, "max_ingest_rate": 5}, "cold": {"capacity": 5000, "max_data_rate": 2}},
+    }
+    if x["unit"] != 1:
+        conf["timestep"] = x["unit"]
+    cp = os.path.join(sub, "c.json")
+    with open(cp, "w") as f:
+        json.dump(conf, f)
+    rec = {"x": x, "raised": "", "tasks": [], "vol": -1, "obs_seconds": -1}
+    try:
+        env = simpy.Environment()
+        sim = Simulation(env, cp, Telescope, BatchPlanning('batch'), 'batch', QueueProcessing(), timestamp=0)
+        sim.start()
+        cl = sim.cluster._clusters["default"]
+        for t in cl["tasks"]["finished"]:
+            if "ingest" in str(t.id):
+                rec["obs_seconds"] = _as_int((t.aft - t.ast) * u, "ingest seconds")
+                continue
+            k = int(t.graph_id)
+            rec["tasks"].append({"k": k, "sec": _as_int((t.aft - t.ast) * u, "seconds"),
+                                 "expect": max(comps[k] // 2, datas[k] // 4)})
+        rec["tasks"].sort(key=lambda r: r["k"])
+        rec["ntasks"] = len(comps)
+        o = sim.instrument.observations[0]
+        rec["vol"] = _as_int(o.total_data_size, "volume")
+    except ValueError as e:
+        rec["raised"] = str(e)[:60]
+    except Exception as e:  # noqa
+        rec["raised"] = type(e).__name__
+    rec.setdefault("ntasks", len(comps))
+    return rec
+
+
 # ------------------------------------------------------------------ C15
 def delay_records(maxrt):
     from topsim.core.delay import DelayModel as D
@@ -291,7 +366,7 @@ def runtime_records(rng, n):
 def build(tier, seed, which=("plan", "config", "delay", "runtime")):
     rng = random.Random(f"pure-{seed}")
     wd = tempfile.mkdtemp(prefix="topsim_p_")
-    data = {"plan": [], "config": [], "delay": [], "runtime": [], "exhaustive": True}
+    data = {"plan": [], "config": [], "delay": [], "runtime": [], "unitrun": [], "exhaustive": True}
     try:
         with contextlib.redirect_stdout(io.StringIO()), contextlib.redirect_stderr(io.StringIO()):
             if "plan" in which:
@@ -304,6 +379,8 @@ def build(tier, seed, which=("plan", "config", "delay", "runtime")):
             if "config" in which:
                 for x in config_inputs():
                     data["config"].append(run_config(x, wd))
+                for x in unit_inputs():
+                    data["unitrun"].append(run_unit_sim(x, wd))
             if "delay" in which:
                 data["delay"] = delay_records(12 if tier == "quick" else 60)
             if "runtime" in which:
